@@ -68,9 +68,9 @@ Print Assumptions C04_failed_step_mask_not_applied.
    verdict, cancellation instant and every k smaller than the number of operations the
    un-faulted run performs: the cut run does not return Ok, and its Ready bit is clear. *)
 Theorem C04_cut_fails_closed :
-  forall cfg c e d hs bits clear tls calls k ru wu rc wc,
-    run cfg (mkPlan FNone c e d hs) bits clear tls calls = (ru, wu) ->
-    run cfg (mkPlan (FCut k) c e d hs) bits clear tls calls = (rc, wc) ->
+  forall cfg cl c e d x hs bits clear tls calls k ru wu rc wc,
+    run cfg (mkPlan FNone cl c e d x hs) bits clear tls calls = (ru, wu) ->
+    run cfg (mkPlan (FCut k) cl c e d x hs) bits clear tls calls = (rc, wc) ->
     k < w_ops wu ->
     failed rc /\ is_ready (w_bits wc) = false.
 Proof. exact cut_fails_closed. Qed.
@@ -79,9 +79,9 @@ Print Assumptions C04_cut_fails_closed.
 (* ---- Transient: exactly operation k returns an error. Same conclusion: no read or write
    error is swallowed anywhere on a path that ends in a nil error. *)
 Theorem C04_transient_fails_closed :
-  forall cfg c e d hs bits clear tls calls k ru wu rc wc,
-    run cfg (mkPlan FNone c e d hs) bits clear tls calls = (ru, wu) ->
-    run cfg (mkPlan (FTransient k) c e d hs) bits clear tls calls = (rc, wc) ->
+  forall cfg cl c e d x hs bits clear tls calls k ru wu rc wc,
+    run cfg (mkPlan FNone cl c e d x hs) bits clear tls calls = (ru, wu) ->
+    run cfg (mkPlan (FTransient k) cl c e d x hs) bits clear tls calls = (rc, wc) ->
     k < w_ops wu ->
     failed rc /\ is_ready (w_bits wc) = false.
 Proof. exact transient_fails_closed. Qed.
@@ -96,20 +96,20 @@ Print Assumptions C04_transient_fails_closed.
    Under any fault plan f, for every c smaller than the number of operations of the
    un-cancelled run: the result is an error and the Ready bit is clear. *)
 Theorem C04_cancel_before_step :
-  forall cfg f e d hs bits clear tls calls c ru wu rc wc,
-    run cfg (mkPlan f None e d hs) bits clear tls calls = (ru, wu) ->
+  forall cfg f cl e d x hs bits clear tls calls c ru wu rc wc,
+    run cfg (mkPlan f cl None e d x hs) bits clear tls calls = (ru, wu) ->
     c < w_ops wu ->
-    run cfg (mkPlan f (Some c) e d hs) bits clear tls calls = (rc, wc) ->
+    run cfg (mkPlan f cl (Some c) e d x hs) bits clear tls calls = (rc, wc) ->
     failed rc /\ is_ready (w_bits wc) = false.
 Proof. exact cancel_fails. Qed.
 Print Assumptions C04_cancel_before_step.
 
 (* the instance "operation c was blocked on a transport with deadlines" *)
 Theorem C04_cancel_while_blocked_fails :
-  forall cfg f hs bits clear tls calls c ru wu rc wc,
-    run cfg (mkPlan f None true true hs) bits clear tls calls = (ru, wu) ->
+  forall cfg f cl x hs bits clear tls calls c ru wu rc wc,
+    run cfg (mkPlan f cl None true true x hs) bits clear tls calls = (ru, wu) ->
     c < w_ops wu ->
-    run cfg (mkPlan f (Some c) true true hs) bits clear tls calls = (rc, wc) ->
+    run cfg (mkPlan f cl (Some c) true true x hs) bits clear tls calls = (rc, wc) ->
     failed rc /\ is_ready (w_bits wc) = false.
 Proof. exact cancel_while_blocked_fails. Qed.
 Print Assumptions C04_cancel_while_blocked_fails.
